@@ -1,9 +1,13 @@
 package main
 
 import (
+	"bytes"
 	"context"
+	"errors"
 	"fmt"
+	"io/ioutil"
 	"math/rand"
+	"net/http"
 	"sort"
 	"strings"
 	"sync"
@@ -13,6 +17,7 @@ import (
 	"github.com/prometheus/common/model"
 	"github.com/prometheus/prometheus/config"
 	"github.com/prometheus/prometheus/model/labels"
+	"github.com/prometheus/prometheus/model/relabel"
 	"github.com/sirupsen/logrus"
 	"tkestack.io/kvass/pkg/discovery"
 	"tkestack.io/kvass/pkg/explore"
@@ -65,6 +70,67 @@ type xWorld struct {
 	mu      sync.Mutex
 	blocked []*blockedProbe
 	started map[uint64]int
+	// real: the explorer's own probe function (request, decoding, stream parser, sample statistics); the scripted
+	// outcome of a probe is then played on the wire by probeRT instead of being handed back directly
+	real func(log logrus.FieldLogger, info *scrape.JobInfo, url string) (*scrape.StatisticsSeriesResult, error)
+}
+
+// probeRT plays one scripted probe outcome as an HTTP exchange: success = a complete exposition with op.Scraped samples
+// that survive the job's metric relabeling and op.Total-op.Scraped that do not; failure = one of the ways a probe fails
+type probeRT struct{ op *xOp }
+
+type brokenBody struct {
+	data []byte
+	off  int
+	err  error
+}
+
+func (r *brokenBody) Read(p []byte) (int, error) {
+	if r.off >= len(r.data) {
+		return 0, r.err
+	}
+	n := copy(p, r.data[r.off:])
+	r.off += n
+	return n, nil
+}
+func (r *brokenBody) Close() error { return nil }
+
+var xFailKinds = []string{"connfail", "status500", "midbody", "reset", "resetatonce", "status404"}
+
+func xFailKind(op *xOp) string { return xFailKinds[int((op.Hash*7+uint64(op.Scraped)+uint64(op.Total))%uint64(len(xFailKinds)))] }
+
+func (p *probeRT) RoundTrip(req *http.Request) (*http.Response, error) {
+	ok := func(body ioReadCloser) *http.Response {
+		return &http.Response{StatusCode: 200, Status: "200 OK", Header: http.Header{"Content-Type": {"text/plain; version=0.0.4"}}, Body: body, Request: req}
+	}
+	if p.op != nil && p.op.OK {
+		return ok(ioutil.NopCloser(bytes.NewReader(payload(int(p.op.Scraped), int(p.op.Total-p.op.Scraped))))), nil
+	}
+	kind := "connfail"
+	if p.op != nil {
+		kind = xFailKind(p.op)
+	}
+	reset := errors.New("read tcp 10.0.0.1:5555->10.0.0.2:80: read: connection reset by peer")
+	switch kind {
+	case "status500":
+		return &http.Response{StatusCode: 500, Status: "500 Internal Server Error", Header: http.Header{}, Body: ioutil.NopCloser(strings.NewReader("boom")), Request: req}, nil
+	case "status404":
+		return &http.Response{StatusCode: 404, Status: "404 Not Found", Header: http.Header{}, Body: ioutil.NopCloser(strings.NewReader(string(payload(3, 1)))), Request: req}, nil
+	case "midbody":
+		data := payload(int(p.op.Scraped)+1, 3)
+		return ok(&brokenBody{data: data[:len(data)/2], err: fmt.Errorf("scripted body failure")}), nil
+	case "reset":
+		data := payload(int(p.op.Scraped)+1, 3)
+		return ok(&brokenBody{data: data[:len(data)/2], err: reset}), nil
+	case "resetatonce":
+		return ok(&brokenBody{err: reset}), nil
+	}
+	return nil, fmt.Errorf("scripted connection failure")
+}
+
+type ioReadCloser interface {
+	Read(p []byte) (int, error)
+	Close() error
 }
 
 func (w *xWorld) probe(log logrus.FieldLogger, info *scrape.JobInfo, url string) (*scrape.StatisticsSeriesResult, error) {
@@ -77,6 +143,12 @@ func (w *xWorld) probe(log logrus.FieldLogger, info *scrape.JobInfo, url string)
 	w.started[h]++
 	w.mu.Unlock()
 	op := <-bp.done
+	if w.real != nil && info != nil && info.Config != nil {
+		cfg := *info.Config
+		cfg.MetricRelabelConfigs = []*relabel.Config{{SourceLabels: model.LabelNames{"__name__"}, Separator: ";",
+			Regex: relabel.MustNewRegexp("dropme"), Action: relabel.Drop}}
+		return w.real(log, &scrape.JobInfo{Config: &cfg, Cli: &http.Client{Transport: &probeRT{op: op}}}, url)
+	}
 	if op == nil || !op.OK {
 		return nil, fmt.Errorf("scripted probe failure")
 	}
@@ -127,7 +199,7 @@ func xJobCfg(names []string) *prom.ConfigInfo {
 
 func exploreRun(in interface{}) (string, interface{}, map[string]int) {
 	c := in.(*xCase)
-	w := &xWorld{started: map[uint64]int{}}
+	w := &xWorld{started: map[uint64]int{}, real: explore.VerifDefaultProbe()}
 	sm := scrape.New(true, quietLog)
 	_ = sm.ApplyConfig(xJobCfg([]string{"job0", "job1", "job2"}))
 	e := explore.New(sm, prometheus.NewRegistry(), quietLog)
